@@ -230,7 +230,7 @@ def run(ck):
     ck.rule('R9.2t', 'string-valued elements emit exactly Start, Text, End unconditionally')
     ck.rule('R9.3', 'each property-like element contains exactly one value serialization')
     ck.rule('R9.4', 'element and attribute names come from the Qt Designer vocabulary; document frame order')
-    ck.rule('R9.5', 'the file on disk is exactly the serializer output: written to a fresh temp file and renamed (shared with C15 R15.2/R15.3)')
+    ck.rule('R9.5', 'the file on disk is exactly the serializer output: written to a fresh temp file and renamed, an existing file kept only if it holds the same bytes (shared with C15 R15.2/R15.3/R15.4)')
 
     # ---- R9.1 ---------------------------------------------------------------
     n_qx = 0
@@ -457,7 +457,8 @@ def run(ck):
     c15.run(sub)
     n5 = 0
     for o in sub.obligations:
-        if o['rule'] in ('R15.2', 'R15.3'):
+        if o['rule'] in ('R15.2', 'R15.3') or (o['rule'] == 'R15.4' and o['key'].endswith('|skipped-only-if-same-bytes')) or \
+                (o['rule'] == 'R15.5' and o['key'] in ('ui-path-gets-form-xml', 'both-outputs-written')):
             n5 += 1
             ck.ob('R9.5', '%s|%s' % (o['rule'], o['key']), o['ok'], o['loc'], o['detail'], nontrivial=False)
-    ck.floor('R9.5', n5, 15, 'writer-protocol obligations shared with C15')
+    ck.floor('R9.5', n5, 19, 'writer-protocol obligations shared with C15')
